@@ -1,6 +1,7 @@
 package rules
 
 import (
+	"sort"
 	"fmt"
 	"go/types"
 	"strings"
@@ -1068,4 +1069,122 @@ func coreCommitBundle(c *Ctx, rule string, skip ...string) {
 	run("S-MATCH", sMatch)
 	run("C01.R5", c01R5)
 	run("S-QUORUM", sQuorum)
+}
+
+
+// S-MAINSEND: a plain (non-select) send executed by the main goroutine – or by
+// respond(), which every goroutine calls – must never block: its channel is
+// created with room for it. An unbuffered stopCh, for instance, parks the
+// leader's main loop (and with it the lease check and every queue) until a
+// replication routine that may be sleeping in its back-off comes round.
+func sMainSendsBuffered(c *Ctx, rule string) {
+	roomy := func(d string) bool {
+		if !strings.HasPrefix(d, "make(chan ") {
+			return false
+		}
+		i := strings.LastIndex(d, ", ")
+		if i < 0 {
+			return false
+		}
+		sz := strings.TrimSuffix(d[i+2:], ")")
+		if strings.HasPrefix(sz, "len(") {
+			return true // one slot per server of the configuration
+		}
+		var n int64
+		_, err := fmt.Sscanf(sz, "%d", &n)
+		return err == nil && n >= 1
+	}
+	n := 0
+	for _, name := range []string{"(*Raft).startStopReplication", "(*Raft).leaderLoop", "(*Raft).electSelf", "(*Raft).preElectSelf", "(*deferError).respond", "(*Raft).runLeader$defer"} {
+		fn := c.P.Fn(name)
+		if fn == nil {
+			continue
+		}
+		engine.EachInstr(fn, func(in ssa.Instruction) {
+			snd, ok := in.(*ssa.Send)
+			if !ok {
+				return
+			}
+			n++
+			d := c.P.D(snd.Chan)
+			okCap, found := false, d
+			if roomy(d) {
+				okCap = true
+			} else if f := engine.ChanField(snd.Chan); f != nil {
+				ws := c.P.FieldWrites(f)
+				okCap = len(ws) > 0
+				var ds []string
+				for _, w := range ws {
+					v, _ := c.P.StoredValue(w.Instr, f)
+					vd := c.P.D(v)
+					ds = append(ds, vd)
+					if vd != "nil" && !roomy(vd) {
+						okCap = false
+					}
+				}
+				found = d + " created as " + strings.Join(ds, " | ")
+			}
+			c.Check(rule, name+":plain-send-cannot-block", c.P.InstrPos(in), "a plain send on the main goroutine (or in respond) goes to a channel created with capacity >= 1 (or one slot per server)", okCap, found, 1)
+		})
+	}
+	if n < 4 {
+		c.Bad(rule, "main-goroutine-sends", "-", "the known plain sends (stopCh, doneCh, self votes, errCh)", fmt.Sprintf("%d found", n))
+	}
+}
+
+
+// S-DISPATCH: Raft.processRPC hands every recognised command to its handler,
+// unconditionally: after the header check, a matched type-switch case calls
+// the handler and nothing else answers the RPC. The "unexpected command"
+// answer is reserved for commands no case matched – candidates interpret that
+// very error as "this server predates pre-vote" and count it as a grant.
+func sDispatch(c *Ctx, rule string) {
+	fn := c.Fn(rule, "(*Raft).processRPC")
+	if fn == nil {
+		return
+	}
+	handlers := map[string]string{
+		"*AppendEntriesRequest":   "(*Raft).appendEntries",
+		"*RequestVoteRequest":     "(*Raft).requestVote",
+		"*RequestPreVoteRequest":  "(*Raft).requestPreVote",
+		"*InstallSnapshotRequest": "(*Raft).installSnapshot",
+		"*TimeoutNowRequest":      "(*Raft).timeoutNow",
+	}
+	var tracks []engine.Track
+	var names []string
+	for t := range handlers {
+		names = append(names, t)
+	}
+	sort.Strings(names)
+	for _, t := range names {
+		tt := t
+		tracks = append(tracks, engine.PredBool("is"+tt, func(d string) bool { return d == "var(RPC).Command.("+tt+")#1" }))
+		h := handlers[tt]
+		tracks = append(tracks, engine.Event("h"+tt, c.P.IsCallTo(engine.Is(h))))
+	}
+	tracks = append(tracks,
+		predErr("hdrErr", "recv.checkRPCHeader("),
+		engine.Event("answered", c.P.IsCallTo(engine.Is("(*RPC).Respond", "(RPC).Respond"))),
+	)
+	r := c.Run(&engine.Automaton{Fn: fn, Tracks: tracks})
+	for i, ret := range engine.ReturnsOf(fn) {
+		c.RequireAt(r, rule, fmt.Sprintf("processRPC:matched-command-reaches-its-handler#%d", i+1), ret, "when the header check passed and the command matched a case, that case's handler was called and processRPC itself answered nothing; only an unmatched command is answered here", func(v engine.View) bool {
+			if v.T("hdrErr") {
+				return v.Seen("answered")
+			}
+			matched := false
+			for _, t := range names {
+				if v.T("is" + t) {
+					matched = true
+					if !v.Seen("h"+t) || v.Seen("answered") {
+						return false
+					}
+				}
+			}
+			if !matched {
+				return v.Seen("answered")
+			}
+			return true
+		})
+	}
 }
